@@ -255,6 +255,15 @@ func clientLine(g *core.Stream) (line string, captcha string) {
 		return "QUIT" + g.Pick([]string{"", " :bye", " :"}), ""
 	case r < 98:
 		return "SERVER services.robustirc.net 1 :Services", ""
+	case r == 98:
+		// command words no client library would send but the POST handler lets through: any byte except
+		// CR, LF and NUL may appear anywhere in a line (whatever the server echoes must still be one line)
+		alphabet := []string{"-", "*", "!", "#", "$", "%", "&", "(", ")", "+", ",", ".", "/", "0", "1", "9", ";", "<", "=", ">", "?", "@", "[", "\\", "]", "^", "_", "`", "{", "|", "}", "~", "\x01", "\x07", "\x1f", "\x7f", "\t", "ı", "ſ", "K", "é", "\xff", "\xc3", "a", "Z", "JOIN", "nick", "PRIVMSG"}
+		w := ""
+		for k := g.Range(1, 5); k > 0; k-- {
+			w += g.Pick(alphabet)
+		}
+		return g.Pick([]string{"", "", " ", ":pfx ", "  "}) + w + g.Pick([]string{"", " x", " #a :text", " :", " " + pickNick(g)}), ""
 	default:
 		return g.Pick([]string{"", " ", ":", ":prefixonly", "FOO", "FOO bar", "join", "\x00", "JOIN", "KICK #a", "PRIVMSG", "PRIVMSG #a", "TOPIC", "MODE", "INVITE alice", ":x!y@z PRIVMSG #a :spoof", "SVSNICK alice eve 1", "@tag NICK foo", strings.Repeat("#a,", 200)}), ""
 	}
